@@ -376,7 +376,12 @@ def r04_2(q, R, spec):
         ok = v is not None and U.is_call(v, "apply_diff_option") and [T.show(x) for x in U.call_args(v)] == ["$diff", "$target"]
         e = pe.calls_named("apply_diff_option")
         ok = ok and len(e) == 1 and (e[0]["path"] or "").endswith("apply_diff::apply_diff_option")
-        R.inst(rid, "apply_diff_option:public-wrapper-delegates", ok, sp=pub["sp"], got=showv(v))
+        # ... on every path: no successful exit before the delegation (seed C04-13: `if target == b { return Ok(target) }` skips the
+        # old-value check for a repeated Add / a stale Edit)
+        early = H.success_returns(pub["body"])
+        R.inst(rid, "apply_diff_option:public-wrapper-delegates", ok and not early, sp=(early[0].get("sp") if early else pub["sp"]),
+               got=showv(v) if not early else ["early success exit `%s`" % H.render(x)[:80] for x in early],
+               expect="apply_diff::apply_diff_option(diff, target) on every path, nothing returned before it")
     # -- direct slot stores on the apply path are guarded by namespace != 0
     ss = getattr(r04_1, "slot_store", None) or {}
     for s in ss.get("stores", []):
